@@ -153,4 +153,4 @@ func vfC15RunIPs(c *vt.Ctx, s vfC15IPScenario) {
 	_ = IgnoredByTerway(labels)
 }
 
-func TestVerifC15IPHelpers(t *testing.T) { vt.Run(t, vfC15GenIPs, vfC15RunIPs) }
+func TestVerifC15IPHelpers(t *testing.T) { vt.Run(t, vfC15GenIPs, g.NoPanic(vfC15RunIPs)) }
